@@ -237,12 +237,27 @@ func (w *jsonWorld) Gen(seed uint64, tier string) *Plan {
 	}
 	if sweep {
 		// every truncation offset of one snapshot (F1 enumerated), each onto the live container
-		t := s.Fresh()
-		tc := &Client{Role: roles[r.Intn(len(roles))]}
-		for i := r.Range(1, 10); i > 0; i-- {
-			t.ModelApply(t.GenOp(r, 100000+i, tc))
+		// (the snapshot is kept below 1500 bytes: the enumeration is quadratic in its length, and a single long
+		// variadic call over long strings would otherwise make one plan of tens of thousands of loads)
+		var doc []byte
+		for attempt := 0; attempt < 8; attempt++ {
+			t := s.Fresh()
+			tc := &Client{Role: roles[r.Intn(len(roles))]}
+			nt := r.Range(1, 10)
+			if attempt > 2 {
+				nt = 1
+			}
+			for i := nt; i > 0; i-- {
+				t.ModelApply(t.GenOp(r, 100000+i, tc))
+			}
+			doc = t.EncodeModel()
+			if len(doc) <= 1500 {
+				break
+			}
 		}
-		doc := t.EncodeModel()
+		if len(doc) > 1500 {
+			doc = s.Fresh().EncodeModel()
+		}
 		if r.P(1, 3) {
 			doc = reencode(r, doc)
 		}
